@@ -181,8 +181,8 @@ impl std::ops::Neg for ApproxFloat {
 
     fn neg(self) -> Self::Output {
         Self {
-            low: -self.low,
-            high: -self.high,
+            low: -self.high,
+            high: -self.low,
         }
     }
 }
@@ -211,8 +211,8 @@ impl std::ops::Sub for ApproxFloat {
 
     fn sub(self, other: Self) -> Self {
         Self {
-            low: next_float_down(self.low - other.low),
-            high: next_float_up(self.high - other.high),
+            low: next_float_down(self.low - other.high),
+            high: next_float_up(self.high - other.low),
         }
     }
 }
@@ -276,8 +276,8 @@ impl std::ops::Mul<Float> for ApproxFloat {
         // self * Self::from(other)
 
         // assume it is possitive
-        let mut min = next_float_down(self.low * other);
-        let mut max = next_float_up(self.high * other);
+        let mut min = self.low * other;
+        let mut max = self.high * other;
         // Swap if I was wrong.
         if min > max {
             std::mem::swap(&mut min, &mut max);
@@ -339,8 +339,8 @@ impl std::ops::AddAssign<Float> for ApproxFloat {
 
 impl std::ops::SubAssign for ApproxFloat {
     fn sub_assign(&mut self, other: Self) {
-        self.low = next_float_down(self.low - other.low);
-        self.high = next_float_up(self.high - other.high);
+        self.low = next_float_down(self.low - other.high);
+        self.high = next_float_up(self.high - other.low);
     }
 }
 
